@@ -73,6 +73,7 @@ def c09_2(ctx):
             if isinstance(t.func, ast.Name):
                 e2 = expand(fn, node.id, t.func)
                 names = {x.id for x in ast.walk(e2) if isinstance(x, ast.Name)}
+                names |= {a[5:] for a in origins(fn, node.id, t.func) if a.startswith("name:")}
                 if {"bech32_verify_checksum", "bech32m_verify_checksum"} <= names:
                     return BAD_FALSE
         return None
@@ -103,8 +104,8 @@ def _const_selection(fn, modname, repo):
         elif isinstance(node, ast.If) and len(node.body) == 1 and len(node.orelse) == 1 and isinstance(node.body[0], ast.Assign) and isinstance(node.orelse[0], ast.Assign):
             test = node.test
             ca, cb = node.body[0].value, node.orelse[0].value
-            na = call_name(ca) if isinstance(ca, ast.Call) else None
-            nb = call_name(cb) if isinstance(cb, ast.Call) else None
+            na = call_name(ca) if isinstance(ca, ast.Call) else (ca.id if isinstance(ca, ast.Name) else None)
+            nb = call_name(cb) if isinstance(cb, ast.Call) else (cb.id if isinstance(cb, ast.Name) else None)
         else:
             continue
         if na and nb and "bech32" in na and "bech32" in nb:
